@@ -29,8 +29,9 @@ type askPlan struct {
 	behaviour     string // answer | negative | block
 	deadline      time.Duration
 	group         int
-	closeServer   bool // close the server node right before this ask
-	closeDuring   bool // close the server node while this ask's (slow) handler is running
+	closeServer   bool          // close the server node right before this ask
+	closeDuring   bool          // close the server node while this ask's (slow) handler is running
+	lateBy        time.Duration // late-answer: how long after the deadline the handler answers
 	desc          string
 }
 
@@ -46,6 +47,7 @@ type askResult struct {
 	resp  []byte
 	took  time.Duration
 	start time.Time
+	atRet []byte // copy of the caller's buffer at the moment Ask returned
 }
 
 // buildSSH builds stand-alone SSH swarms on TCP loopback.
@@ -103,7 +105,8 @@ func runAsks(w *stack.World, plans []askPlan, serveLoops int) (results []askResu
 							mu.Lock()
 							invs[id] = append(invs[id], inv)
 							mu.Unlock()
-							return -1
+							// any negative value signals failure, not only -1
+							return []int{-1, -1, -2, -255, -256, -257, -512, -65536, -1 << 31}[int(id)%9]
 						case "block":
 							mu.Lock()
 							invs[id] = append(invs[id], inv)
@@ -120,7 +123,7 @@ func runAsks(w *stack.World, plans []askPlan, serveLoops int) (results []askResu
 						}
 						if plan.behaviour == "late-answer" {
 							// answers after the asker has given up: the answer must not surface in a later ask
-							time.Sleep(plan.deadline + 40*time.Millisecond)
+							time.Sleep(plan.deadline + plan.lateBy)
 						}
 						// answer: response bytes unique to this invocation
 						out := make([]byte, plan.respLen)
@@ -182,7 +185,7 @@ func runAsks(w *stack.World, plans []askPlan, serveLoops int) (results []askResu
 				t0 := time.Now()
 				n, err := w.Nodes[p.asker].A.Ask(actx, buf, w.Nodes[p.server].Local(), p2p.IOVec{e.Data})
 				cf()
-				results[i] = askResult{n: n, err: err, resp: buf, took: time.Since(t0), start: t0}
+				results[i] = askResult{n: n, err: err, resp: buf, took: time.Since(t0), start: t0, atRet: append([]byte{}, buf...)}
 			}()
 		}
 		for _, i := range groups[g] {
@@ -252,6 +255,8 @@ func genAskPlans(t *rapid.T, nNodes, mtu, part, maxAsks int, allowClose bool) []
 				blocks++
 				p.behaviour = "late-answer"
 				p.deadline = time.Duration(rapid.IntRange(40, 120).Draw(t, "lateDeadlineMs")) * time.Millisecond
+				// clearly late, or within a millisecond or two of the deadline (the reply then races with Ask's return)
+				p.lateBy = time.Duration(rapid.SampledFrom([]int{40000, 40000, -1500, -500, 0, 300, 1000}).Draw(t, "lateByMicros")) * time.Microsecond
 				followUp = true
 			}
 			if !rapid.Bool().Draw(t, "sameGroup") {
@@ -332,6 +337,10 @@ func checkAsks(t *rapid.T, sub string, w *stack.World, desc string, plans []askP
 		slack := time.Second + 20*ev.MaxLagSince(r.start)
 		if r.took > p.deadline+slack {
 			fail("ask %d (%s) returned after %v, its context ended at %v", i, p.desc, r.took, p.deadline)
+		}
+		// the response buffer belongs to the caller again once Ask has returned: a late reply must not be written into it
+		if !bytes.Equal(r.resp, r.atRet) {
+			fail("ask %d (%s): the caller's response buffer changed after Ask had returned (n=%d err=%v)", i, p.desc, r.n, r.err)
 		}
 		if r.err == nil {
 			if r.n < 0 || r.n > len(r.resp) {
